@@ -693,6 +693,56 @@ func checkRound2C04(c *core.Ctx) {
 				})
 				return true
 			})
+			// … and the reload is not narrowed: inside that loop, the conditions in front of the reload may only compare the
+			// loop variable with the stored index and with the number of imported globals. Which imported globals alias is
+			// decided at link time, nothing in the module (import names, types) can exclude a pair.
+			narrowed := ""
+			ast.Inspect(set.Body, func(x ast.Node) bool {
+				rs, isLoop := x.(*ast.RangeStmt)
+				if !isLoop {
+					return true
+				}
+				ast.Inspect(rs.Body, func(y ast.Node) bool {
+					is, isIf := y.(*ast.IfStmt)
+					if !isIf {
+						return true
+					}
+					reloads := false
+					ast.Inspect(is.Body, func(z ast.Node) bool {
+						if call, isC := z.(*ast.CallExpr); isC && core.Callee(info, call) == info.Defs[get.Name] {
+							reloads = true
+						}
+						return true
+					})
+					if !reloads {
+						return true
+					}
+					ast.Inspect(is.Cond, func(z ast.Node) bool {
+						switch w := z.(type) {
+						case *ast.CallExpr:
+							narrowed = "`" + core.ExprStr(w) + "`"
+						case *ast.SelectorExpr:
+							if w.Sel.Name != "ImportGlobalCount" {
+								if _, isPkgOrRecv := w.X.(*ast.Ident); !isPkgOrRecv || w.Sel.Name != "m" {
+									// c.m (the module) is the only other selector expected
+									if core.ExprStr(w) != "c.m" {
+										narrowed = "`" + core.ExprStr(w) + "`"
+									}
+								}
+							}
+						}
+						return true
+					})
+					return true
+				})
+				return true
+			})
+			if ok && narrowed != "" {
+				c.Violate("R04.10", "the reload of the other imported mutable globals is not narrowed", set.Pos(),
+					"the condition in front of the reload also depends on "+narrowed+": which imported globals are the same object is only known at link time (one global can be imported twice, directly and through a re-export under another module name), so any filter beyond 'imported, and not the one just stored' leaves a stale alias")
+			} else if ok {
+				c.Discharge("R04.10", "the reload of the other imported mutable globals is not narrowed", set.Pos(), "the guard compares only the loop variable, the stored index and ImportGlobalCount")
+			}
 			c.Check(ok, "R04.10", "a store to an imported global reloads the other imported mutable globals", set.Pos(), "the imported branch force-loads the other imported mutable globals",
 				"the frontend keeps one SSA variable per global index and does not refresh the others after a store to an imported global: when the same global instance is imported twice (or exported under two names) `global.get` of the alias returns the stale value")
 		}
